@@ -49,7 +49,7 @@ func (hb *hostileBackend) ServeHTTP(w http.ResponseWriter, r *http.Request) {
 	hb.Calls++
 	hb.Ctxs = append(hb.Ctxs, r.Context())
 	switch w.(type) {
-	case *drive.Recorder, drive.FlushErrorOnly, drive.UnwrapOnly:
+	case *drive.Recorder, drive.FlushErrorOnly, drive.UnwrapOnly, drive.NoFlush:
 		hb.Direct = true // handed the server's own writer: pass-through or unknown handler
 	}
 	hb.keptW, hb.keptBody = w, r.Body
@@ -520,7 +520,7 @@ func runHostile(c *xplor.Ctx, withUnknown bool) *hostileResult {
 		res.Unknown = &hostileBackend{script: replies[ri].script, readPolicy: rp}
 		cfg.Unknown = res.Unknown
 	}
-	noFlusher := c.Choose("writer-kind", 4)
+	noFlusher := c.Choose("writer-kind", 5)
 	ctxMode := c.Choose("ctx", 3)
 	tc, err := world.Build(cfg, svc)
 	if err != nil {
@@ -574,6 +574,9 @@ func runHostile(c *xplor.Ctx, withUnknown bool) *hostileResult {
 	case 3:
 		w = drive.UnwrapOnly{R: drive.FlushErrorOnly{R: rec}}
 		desc = append(desc, "writer=Unwrap(FlushError)")
+	case 4:
+		w = drive.NoFlush{R: rec}
+		desc = append(desc, "writer=without-Flush")
 	}
 	ex := &world.Exchange{Rec: rec, Body: spec.Body, Req: req}
 	ex.Panic = drive.Serve(tc, w, rec, req, spec.Body)
